@@ -308,6 +308,48 @@ pub fn check(r: &mut Report, t: &Trace, c: &Cfg) {
     }
 }
 
+/// One analyzer object, two captures in a row, sequential and parallel mode (the pool is initialised before each capture):
+/// the filter must still be in force for the second capture. Reference: the same usage without a filter on the admitted
+/// sub-trace; compared as multisets (parallel mode does not order results of different connections).
+pub fn check_reuse(r: &mut Report, t: &Trace, c: &Cfg) {
+    use crate::drv::{http_pcap_reuse, tcp_pcap_reuse, tls_pcap_reuse};
+    for an in ["tcp", "http", "tls"] {
+        let ends: fn(&[u8]) -> Option<(IpAddr, IpAddr, u16, u16)> = match an {
+            "tcp" => analyzer_endpoints,
+            "http" => endpoints_http,
+            _ => endpoints_tls,
+        };
+        let sub: Vec<Vec<u8>> = t.frames.iter().filter(|f| ends(f).map(|(si, di, sp, dp)| ref_should_process(c, &si, &di, sp, dp)).unwrap_or(true)).cloned().collect();
+        for parallel in [false, true] {
+            r.exec(2 * (t.frames.len() + sub.len()) as u64);
+            let res = guarded(|| -> Result<(Vec<String>, Vec<String>), String> {
+                let fmt = |v: Vec<String>| {
+                    let mut v = v;
+                    v.sort();
+                    v
+                };
+                Ok(match an {
+                    "tcp" => (fmt(nonempty(tcp_pcap_reuse(&t.frames, Some(cfg_tcp(c)), 16, parallel)?, |x| x.is_empty()).iter().map(|x| format!("{x:?}")).collect()), fmt(nonempty(tcp_pcap_reuse(&sub, None, 16, parallel)?, |x| x.is_empty()).iter().map(|x| format!("{x:?}")).collect())),
+                    "http" => (fmt(nonempty(http_pcap_reuse(&t.frames, Some(cfg_http(c)), 16, parallel)?, |x| x.is_empty()).iter().map(|x| format!("{x:?}")).collect()), fmt(nonempty(http_pcap_reuse(&sub, None, 16, parallel)?, |x| x.is_empty()).iter().map(|x| format!("{x:?}")).collect())),
+                    _ => (fmt(tls_pcap_reuse(&t.frames, Some(cfg_tls(c)), 16, parallel)?.iter().map(|x| format!("{x:?}")).collect()), fmt(tls_pcap_reuse(&sub, None, 16, parallel)?.iter().map(|x| format!("{x:?}")).collect())),
+                })
+            });
+            let mode = if parallel { "parallel" } else { "sequential" };
+            match res {
+                Err(p) => r.dev(format!("C15/{an}/reuse/panic"), "panic", || json!({"kind": "reuse", "trace": t.name, "filter": c, "mode": mode, "detail": p})),
+                Ok(Err(e)) => r.machinery_error(format!("reuse route failed: {e}")),
+                Ok(Ok((with_filter, reference))) => {
+                    r.outcome(&(an, "reuse", mode, &with_filter));
+                    if with_filter != reference {
+                        let dir = if with_filter.len() > reference.len() { "result-for-rejected-endpoints" } else if with_filter.len() < reference.len() { "admitted-result-dropped" } else { "result-changed" };
+                        r.dev(format!("C15/{an}/reuse/{mode}/second-capture-on-one-analyzer-differs-from-unfiltered-subtrace/{dir}"), "reuse", || json!({"kind": "reuse", "trace": t.name, "filter": c, "analyzer": an, "mode": mode, "with_filter": with_filter.len(), "unfiltered_subtrace": reference.len()}));
+                    }
+                }
+            }
+        }
+    }
+}
+
 pub fn run(thorough: bool) -> Outcome {
     let ts = traces();
     let fs = filters();
@@ -326,6 +368,9 @@ pub fn run(thorough: bool) -> Outcome {
                 }
                 let _ = &fsel;
                 check(&mut r, &ts[i], c);
+                if ts[i].name.starts_with("two-connections") && ts[i].name.ends_with("alternating") && (thorough || k % 3 == 0 || k == fs.len() - 1) {
+                    check_reuse(&mut r, &ts[i], c);
+                }
             }
             if i % 97 == 0 {
                 r.sample(|| json!({"trace": ts[i].name, "frames": ts[i].frames.len()}));
@@ -335,7 +380,7 @@ pub fn run(thorough: bool) -> Outcome {
     });
     Outcome {
         report: rep,
-        rule: "traces: a 4-frame connection (SYN, SYN+ACK, HTTP request or ClientHello, response) and truncations of its SYN for IPv4 header lengths 0..15 and IPv6 x 5 framings (raw, Ethernet, NULL 1e/02/1c) x 2 port pairs; three pairs of connections with different endpoints, alternating and sequential; x 39 filter configurations (each sub-filter alone and combined, allow and deny, ports that only exist inside a mis-sized IPv4 header); TCP, HTTP, TLS and unified analyzers through analyze_pcap with the filter vs without filter on the admitted sub-trace; distinct = distinct filtered result lists".into(),
+        rule: "traces: a 4-frame connection (SYN, SYN+ACK, HTTP request or ClientHello, response) and truncations of its SYN for IPv4 header lengths 0..15 and IPv6 x 5 framings (raw, Ethernet, NULL 1e/02/1c) x 2 port pairs; three pairs of connections with different endpoints, alternating and sequential; x 39 filter configurations (each sub-filter alone and combined, allow and deny, ports that only exist inside a mis-sized IPv4 header); TCP, HTTP, TLS and unified analyzers through analyze_pcap with the filter vs without filter on the admitted sub-trace; reuse: one analyzer object (sequential, and parallel with init_pool before each capture) analysing the two-connection traces twice in a row, filtered vs unfiltered on the sub-trace; distinct = distinct filtered result lists".into(),
         exhaustive: true,
         bounds: json!({"traces": n, "filters": fs.len()}),
     }
@@ -346,6 +391,7 @@ pub fn replay(ex: &Value) -> Report {
     let ts = traces();
     let name = ex["trace"].as_str().unwrap_or("");
     match (ts.iter().find(|t| t.name == name), serde_json::from_value::<Cfg>(ex["filter"].clone())) {
+        (Some(t), Ok(c)) if ex["kind"].as_str() == Some("reuse") => check_reuse(&mut r, t, &c),
         (Some(t), Ok(c)) => check(&mut r, t, &c),
         _ => r.machinery_error("bad replay file"),
     }
